@@ -307,8 +307,18 @@ def rule_blacklist(ctx):
     white = [d for d in dcs if [norm(i) for i in d.generators[0].ifs] == ["not %s.startswith('!')" % kv(d)[0]]]
     black = [d for d in dcs if [norm(i) for i in d.generators[0].ifs] == ["%s.startswith('!')" % kv(d)[0]]]
     okw = len(white) == 1 and norm(white[0].key) == kv(white[0])[0] and norm(white[0].value) == kv(white[0])[1]
-    okb = len(black) == 1 and norm(black[0].key) in ("%s.lstrip('!')" % kv(black[0])[0], "%s[1:]" % kv(black[0])[0]) \
-        and isinstance(black[0].value, ast.Call) and len(black[0].value.args) == 1 and norm(black[0].value.args[0]) == kv(black[0])[1]
+    okb = len(black) == 1 and norm(black[0].key) in ("%s.lstrip('!')" % kv(black[0])[0], "%s[1:]" % kv(black[0])[0])
+    if okb:
+        # the black-list value is a function of the filter value only (compiled to a regex by a helper or in place)
+        bv = black[0].value
+        vname = kv(black[0])[1]
+        free = {n_.id for n_ in ast.walk(bv) if isinstance(n_, ast.Name) and isinstance(n_.ctx, ast.Load)}
+        if isinstance(bv, ast.Call) and len(bv.args) == 1 and norm(bv.args[0]) == vname:
+            okb = True
+        elif vname in free and free <= {vname, "re", "isinstance", "tuple", "list", "str", "convert"} and calls_in(bv, "compile"):
+            okb = True
+        else:
+            raise AnalysisError("find: black-list value %s not understood" % norm(bv)[:80])
     if not white and not black and not dcs:
         raise AnalysisError("find: white/black list construction not recognised")
     ctx.ob("FileSet.find.filter_split", okw and okb, "white: %s; black: %s" % ([norm(d) for d in white], [norm(d) for d in black]),
@@ -334,6 +344,26 @@ def rule_blacklist(ctx):
     if lp and len(c.body) == 2 and norm(c.body[1]) == "return True":
         lb = [norm(s) for s in lp[0].body]
         okc = norm(lp[0].iter) == "%s.items()" % bl and lb == ["value = %s.get(placeholder, None)" % ph, "if value is None:\n    continue", "if forbidden.match(value):\n    return False"]
+    elif not lp and len(c.body) == 1 and isinstance(c.body[0], ast.Return):
+        # one expression: not any(rx.match(ph[k]) for k, rx in bl.items() if ph.get(k) is not None)
+        v = c.body[0].value
+        neg = isinstance(v, ast.UnaryOp) and isinstance(v.op, ast.Not)
+        inner = v.operand if neg else v
+        if isinstance(inner, ast.Call) and dotted(inner.func) in ("any", "all") and len(inner.args) == 1 and isinstance(inner.args[0], (ast.GeneratorExp, ast.ListComp)) \
+                and len(inner.args[0].generators) == 1:
+            g = inner.args[0].generators[0]
+            if not (isinstance(g.target, ast.Tuple) and len(g.target.elts) == 2 and all(isinstance(e, ast.Name) for e in g.target.elts)):
+                raise AnalysisError("_check_file: comprehension target not understood")
+            k_, rx_ = [e.id for e in g.target.elts]
+            present = [norm(i).replace(" ", "") for i in g.ifs]
+            elt = norm(inner.args[0].elt).replace(" ", "")
+            ok_present = present in (["%s.get(%s)isnotNone" % (ph, k_)], ["%s.get(%s,None)isnotNone" % (ph, k_)], ["%sin%s" % (k_, ph), "%s[%s]isnotNone" % (ph, k_)])
+            ok_elt = elt in ("%s.match(%s[%s])" % (rx_, ph, k_), "%s.match(%s.get(%s))" % (rx_, ph, k_), "%s.match(%s.get(%s,None))" % (rx_, ph, k_))
+            okc = dotted(inner.func) == "any" and neg and norm(g.iter) == "%s.items()" % bl and ok_present and ok_elt
+        else:
+            raise AnalysisError("_check_file: single return expression not understood")
+    else:
+        raise AnalysisError("_check_file: neither the loop form nor a single any(...) expression")
     ctx.ob("FileSet._check_file", okc, "%s" % body, "False only when a forbidden regex matches the file's value of that placeholder; absent placeholders are skipped; True otherwise", node=c.node, func=c)
 
 
